@@ -273,7 +273,7 @@ def _read_in_functions(mod, name):
 
 
 def check_no_global_memo(ctx, rule="R-no-global-memo-of-arguments", files=("speckit/analysis.py", "speckit/core.py", "speckit/core_cuda.py", "speckit/schedulers.py",
-                                                                         "speckit/dsp.py", "speckit/noise.py", "speckit/systems.py", "speckit/utils.py")):
+                                                                         "speckit/dsp.py", "speckit/noise.py", "speckit/systems.py", "speckit/utils.py"), floor=100):
     """a module-level slot re-bound inside a function to something computed from that call's arguments (the last analyzer, the last plan, the last
     spectrum) makes later calls depend on earlier ones: an identity test on a mutable argument does not notice that its contents changed."""
     assert len(_global_memo_sites(ast.parse(_GLOBAL_MEMO_FIXTURE))) == 1, "rule self-test failed"
@@ -286,6 +286,139 @@ def check_no_global_memo(ctx, rule="R-no-global-memo-of-arguments", files=("spec
             bad += 1
             ctx.violated(rule, f"{rel}::{fn.name}[{norm_stmt(node)[:70]}]", f"the module-level name {name} is re-bound in {fn.name} to a value computed from this call's arguments and consulted by later "
                          "calls: the result of a call depends on the calls made before it (an array refilled in place, or an equal-looking configuration, is served the stale object)", f"{rel}:{node.lineno}")
-    ctx.need("functions scanned for module-level memo slots", nfun, 100)
+    ctx.need("functions scanned for module-level memo slots", nfun, floor)
     if not bad:
         ctx.holds(rule, ",".join(files), f"{nfun} functions: no module-level name is re-bound to argument-derived values (positive control: the built-in fixture is reported)", files[0])
+
+
+# ---------------------------------------------------------------------------- no reference to live instance state in a process-wide store
+_ALIAS_FIXTURE = '''
+_STORE = {}
+def kern(x, z):
+    for i in range(len(x)):
+        z[0] = x[i]
+class G:
+    def settle(self, key):
+        hit = _STORE.get(key)
+        if hit is not None:
+            self._z = hit.copy(); return
+        kern(self.buf, self._z)
+        _STORE[key] = self._z
+class H:
+    def settle(self, key):
+        hit = _STORE.get(key)
+        if hit is not None:
+            self._z = hit.copy(); return
+        kern(self.buf, self._z)
+        _STORE[key] = self._z.copy()
+'''
+
+
+def _process_wide_alias_sites(mod):
+    """[(function, store name, node, attr)] : a module-level container (dict / list / set) receives, inside a method, a bare reference to an attribute
+    of `self` that the module updates in place (subscript store, augmented assignment, or passed to a function that stores into that parameter).
+    A copy (`x.copy()`, `np.array(x)`, any call) is not a reference."""
+    stores = set()
+    for st in mod.body:
+        tg, v = (st.targets, st.value) if isinstance(st, ast.Assign) else ([st.target], st.value) if isinstance(st, ast.AnnAssign) and st.value is not None else ([], None)
+        if v is None: continue
+        if isinstance(v, (ast.Dict, ast.List, ast.Set)) or (isinstance(v, ast.Call) and ast.unparse(v.func).split(".")[-1] in ("dict", "list", "set", "OrderedDict", "defaultdict", "deque", "WeakValueDictionary")):
+            for t in tg:
+                if isinstance(t, ast.Name): stores.add(t.id)
+    if not stores: return []
+    funcs = {n.name: n for n in ast.walk(mod) if isinstance(n, ast.FunctionDef)}
+    # parameters a function stores into (subscript store / augmented assignment on the bare parameter)
+    writes = {}
+    for nm, fn in funcs.items():
+        ps = [a.arg for a in fn.args.posonlyargs + fn.args.args]
+        w = set()
+        for n in ast.walk(fn):
+            t = None
+            if isinstance(n, ast.Assign):
+                for t_ in n.targets:
+                    if isinstance(t_, ast.Subscript) and isinstance(t_.value, ast.Name) and t_.value.id in ps: w.add(ps.index(t_.value.id))
+            elif isinstance(n, ast.AugAssign):
+                t = n.target
+                if isinstance(t, ast.Subscript): t = t.value
+                if isinstance(t, ast.Name) and t.id in ps: w.add(ps.index(t.id))
+        writes[nm] = w
+    inplace = set()
+    for n in ast.walk(mod):
+        if isinstance(n, ast.Assign):
+            for t in n.targets:
+                if isinstance(t, ast.Subscript) and isinstance(t.value, ast.Attribute) and isinstance(t.value.value, ast.Name) and t.value.value.id == "self": inplace.add(t.value.attr)
+        elif isinstance(n, ast.AugAssign):
+            t = n.target.value if isinstance(n.target, ast.Subscript) else None
+            if isinstance(t, ast.Attribute) and isinstance(t.value, ast.Name) and t.value.id == "self": inplace.add(t.attr)
+        elif isinstance(n, ast.Call):
+            cal = n.func.id if isinstance(n.func, ast.Name) else n.func.attr if isinstance(n.func, ast.Attribute) else None
+            if cal in writes:
+                off = 1 if isinstance(n.func, ast.Attribute) and funcs[cal].args.args and funcs[cal].args.args[0].arg == "self" else 0
+                for i, a in enumerate(n.args):
+                    if isinstance(a, ast.Attribute) and isinstance(a.value, ast.Name) and a.value.id == "self" and (i + off) in writes[cal]: inplace.add(a.attr)
+                ps = [a.arg for a in funcs[cal].args.posonlyargs + funcs[cal].args.args]
+                for kw in n.keywords:
+                    a = kw.value
+                    if kw.arg in ps and ps.index(kw.arg) in writes[cal] and isinstance(a, ast.Attribute) and isinstance(a.value, ast.Name) and a.value.id == "self": inplace.add(a.attr)
+    # class-level string constants (attribute names used through getattr(self, self._state_attr))
+    strconst = {}
+    for c in ast.walk(mod):
+        if isinstance(c, ast.ClassDef):
+            for st in c.body:
+                if isinstance(st, (ast.Assign, ast.AnnAssign)) and isinstance(getattr(st, "value", None), ast.Constant) and isinstance(st.value.value, str):
+                    for t in (st.targets if isinstance(st, ast.Assign) else [st.target]):
+                        if isinstance(t, ast.Name): strconst.setdefault(t.id, set()).add(st.value.value)
+    out = []
+    for fn in [n for n in ast.walk(mod) if isinstance(n, ast.FunctionDef)]:
+        defs = {}
+        for n in ast.walk(fn):
+            if isinstance(n, ast.Assign) and len(n.targets) == 1 and isinstance(n.targets[0], ast.Name): defs.setdefault(n.targets[0].id, []).append(n.value)
+
+        def bare(e, seen):
+            """self attributes referenced by e without a copy"""
+            if isinstance(e, (ast.Tuple, ast.List, ast.Set)): return set().union(*[bare(x, seen) for x in e.elts]) if e.elts else set()
+            if isinstance(e, ast.Dict): return set().union(*[bare(x, seen) for x in e.values]) if e.values else set()
+            if isinstance(e, ast.Starred): return bare(e.value, seen)
+            if isinstance(e, ast.IfExp): return bare(e.body, seen) | bare(e.orelse, seen)
+            if isinstance(e, ast.Attribute) and isinstance(e.value, ast.Name) and e.value.id == "self": return {e.attr}
+            if isinstance(e, ast.Call) and isinstance(e.func, ast.Name) and e.func.id == "getattr" and e.args and isinstance(e.args[0], ast.Name) and e.args[0].id == "self" and len(e.args) >= 2:
+                k = e.args[1]
+                if isinstance(k, ast.Constant) and isinstance(k.value, str): return {k.value}
+                if isinstance(k, ast.Attribute) and k.attr in strconst: return set(strconst[k.attr])
+                return {"*"}
+            if isinstance(e, ast.Name) and e.id in defs and e.id not in seen:
+                seen = seen | {e.id}
+                return set().union(*[bare(v, seen) for v in defs[e.id]])
+            return set()
+        for n in ast.walk(fn):
+            val = None; nm = None
+            if isinstance(n, ast.Assign):
+                for t in n.targets:
+                    if isinstance(t, ast.Subscript) and isinstance(t.value, ast.Name) and t.value.id in stores: val = n.value; nm = t.value.id
+            elif isinstance(n, ast.Call) and isinstance(n.func, ast.Attribute) and isinstance(n.func.value, ast.Name) and n.func.value.id in stores and n.func.attr in ("append", "setdefault", "add", "insert", "appendleft") and n.args:
+                val = n.args[-1]; nm = n.func.value.id
+            if val is None: continue
+            refs = bare(val, set())
+            hit = sorted(a for a in refs if a in inplace or (a == "*" and inplace))
+            if hit: out.append((fn, nm, n, hit[0]))
+    return out
+
+
+def check_no_process_wide_alias(ctx, rule, files, floor=10):
+    """instance state that is updated in place must not be reachable from a module-level container: every later instance served from that container
+    receives whatever the first instance's stream has turned the state into (the result of a constructor depends on the use made of earlier objects)."""
+    got = _process_wide_alias_sites(ast.parse(_ALIAS_FIXTURE))
+    assert len(got) == 1 and got[0][0].name == "settle" and got[0][3] == "_z", "rule self-test failed"
+    nfun = 0; bad = 0
+    for rel in files:
+        if rel not in ctx.repo.mods: continue
+        mod = ctx.repo.module(rel)
+        nfun += sum(1 for n in ast.walk(mod) if isinstance(n, ast.FunctionDef))
+        for fn, name, node, attr in _process_wide_alias_sites(mod):
+            bad += 1
+            ctx.violated(rule, f"{rel}::{fn.name}[{norm_stmt(node)[:70]}]", f"the module-level container {name} receives a reference (not a copy) to self.{attr}, which this module updates in place: "
+                         "what a later object is served from the container depends on how far the first object's stream has advanced", f"{rel}:{node.lineno}")
+    ctx.need("functions scanned for process-wide references to instance state", nfun, floor)
+    if not bad:
+        ctx.holds(rule, ",".join(files), f"{nfun} functions: no module-level container holds a reference to in-place updated instance state (positive control: the built-in fixture "
+                  "is reported, its copying twin is not)", files[0])
